@@ -16,7 +16,7 @@ VM = {"name": "exec", "quick": 1500, "thorough": 120000}
 
 PROPS = {
     "C09": {
-        "modules": ["C09", "C09Seal", "C09Reach"],
+        "modules": ["C09", "C09Seal", "C09Reach", "C09Supply"],
         "streams": [{"name": "hostile", "quick": 210, "thorough": 9600}, {"name": "apply", "quick": 75, "thorough": 3200},
                     {"name": "seal", "quick": 180, "thorough": 3200}, {"name": "chain", "quick": 45, "thorough": 2000},
                     {"name": "exec", "quick": 600, "thorough": 60000}, {"name": "feemult", "quick": 100, "thorough": 4500}],
